@@ -298,20 +298,20 @@ pub fn run_profile(p: &'static Profile, cfg: &RunCfg) -> Report {
 
     // 1. enumerated cases (deterministic lists), split over workers
     if let Some(en) = p.enumerate {
-        let (list, exhaustive) = en(cfg.tier, rt::SCHED);
-        enumerated = list.len() as u64;
-        enumerated_exhaustive = exhaustive;
-        let list = Arc::new(list);
+        let spec = en(cfg.tier, rt::SCHED);
+        enumerated = spec.n as u64;
+        enumerated_exhaustive = spec.exhaustive;
+        let spec = Arc::new(spec);
         let next = Arc::new(std::sync::atomic::AtomicUsize::new(0));
         let mut hs = vec![];
         for _ in 0..cfg.workers {
-            let (list, next, stats, abort, failures, known) = (list.clone(), next.clone(), stats.clone(), abort.clone(), failures.clone(), known.clone());
+            let (spec, next, stats, abort, failures, known) = (spec.clone(), next.clone(), stats.clone(), abort.clone(), failures.clone(), known.clone());
             hs.push(std::thread::spawn(move || loop {
                 let i = next.fetch_add(1, std::sync::atomic::Ordering::SeqCst);
-                if i >= list.len() || abort.lock().unwrap().is_some() || !failures.lock().unwrap().is_empty() {
+                if i >= spec.n || abort.lock().unwrap().is_some() || !failures.lock().unwrap().is_empty() {
                     break;
                 }
-                let scn = Arc::new(list[i].clone());
+                let scn = Arc::new((spec.make)(i));
                 stats.lock().unwrap().cases += 1;
                 if let Err((sched, m)) = judge_all(p, &scn, &schedules_for(&scn, scheds.min(8)), &stats, &known, true, &abort) {
                     stats.lock().unwrap().failed = true;
